@@ -23,8 +23,8 @@ func lockPairing(r *core.Run) {
 		}
 		for _, f := range core.AllSSA(fn.SSA) {
 			type op struct {
-				in    ssa.Instruction
-				name  string
+				in     ssa.Instruction
+				name   string
 				defer_ bool
 			}
 			var ops []op
@@ -135,13 +135,20 @@ func replicationUnderLock(r *core.Run, la *lockAnalysis) {
 		var walk func(f *ssa.Function, entry int)
 		walk = func(f *ssa.Function, entry int) {
 			stateAt := map[ssa.Instruction]int{}
-			la.flow(f, entry, func(in ssa.Instruction, st int) {
-				stateAt[in] = st
+			send := viaHelpers(p, f, func(in ssa.Instruction) bool {
 				c, ok := in.(ssa.CallInstruction)
 				if !ok {
+					return false
+				}
+				o := core.CalleeObj(c)
+				return o != nil && isProcess(o)
+			})
+			la.flow(f, entry, func(in ssa.Instruction, st int) {
+				stateAt[in] = st
+				if _, ok := in.(ssa.CallInstruction); !ok {
 					return
 				}
-				if o := core.CalleeObj(c); o != nil && isProcess(o) {
+				if send(in) {
 					cnt++
 					key := n.next(name + " Process (replication send)")
 					r.Check(st == lkWrite, "replication-under-lock", key, site(r, instrPos(in)),
